@@ -242,7 +242,7 @@ def run(ctx):
         if len(outs) > 1:
             ctx.violation('symbolic arithmetic: the result depends on the values stored in the Variables',
                           {'case': lst[0][0], 'others': [c.get('stored') for c, _ in lst], 'observed': [io for _, io in lst]})
-    if (not ctx.lean.ok or ctx.disagreements) and not ctx.violations and not ctx.known_hits:
+    if (not ctx.lean.ok or ctx.disagreements) and not ctx.violations:
         common.broken_report(ctx, 'substitute-then-compute reference found no failing input among %d cases' % ctx.evaluations)
     return ctx.finish(
         level='proof',
